@@ -119,6 +119,7 @@ pub fn any_class_rulespec<const N: usize, const B: usize, S: Src>(s: &mut S) {
         s.assume(x.cs[i] as u32 != 0x200c);
         unsafe {
             super::stubs::ANY_CS[i] = x.cs[i] as u32;
+            super::stubs::ANY_MASK[i] = super::oracle::ctx_mask(x.cs[i] as u32);
         }
         i += 1;
     }
